@@ -13,6 +13,11 @@
 //	     every later write) - and a Delete overtaken by another write after its first read (raced: the
 //	     REMOVE must carry the item actually removed). The driver's state is the bus model of
 //	     lean/ScVerif/C04/Bus.lean: `unsub` only marks the listener dead, a Send collects lazily.
+//	     racee: a subscription that is IN the snapshot is cancelled while the write is parked inside
+//	     Bus.Send (the others must be served exactly once, the dead one skipped and collected).
+//	tie  K2 "pullid-scope": ALL short histories x subscription points for a PullID subscriber x
+//	     equivalence {none, equal, sameA} (the inner Pull and the harness's shadow Pull are the only
+//	     listeners: two equivalence decisions per bus event).
 //	monitor "writer-log": the received stream vs the writer's own log (what its calls returned),
 //	     independent of the Lean model.
 package main
@@ -49,6 +54,7 @@ func main() {
 		tieV:  res.Tie("value-stream", "K1", "the same for Value.Set / Value.Pull (with/without initial value)"),
 		tieS:  res.Tie("small-scope", "K2", "ALL write histories up to the stated length over ids {a,b} (add/update/create-update/delete/failing-precondition) x every subscription point x {plain, updates-only, read mask} subscribers (opened together when there is no equivalence) x equivalence {none, equal}; distinct = distinct scripts"),
 		tieR:  res.Tie("subscribe-during-write", "K4", "a subscriber opens WHILE one write is in flight, steered through the yield points: (a) subscriber parked at {value,coll}.onUpdate.beforeListen (between its snapshot and its bus registration) while the write runs - compared: whether the write is blocked on the resource lock (decided from the goroutine's wait reason) or finishes, the seed, every delivery; (b) write parked at value.set.beforeSend / coll.update.beforeSend (committed, not published) while the subscriber opens. ALL (initial contents, prefix write, write in flight) over the small alphabet, each followed by three follow-up writes, x both kinds x {plain, updates-only, read mask} x equivalence {none, equal}, Collection and Value; (c) write parked inside Bus.Send right after its snapshot of the listeners (bus.send.afterSnapshot) while the subscriber opens, the snapshot holding {no, a cancelled, a cancelled and a live, a live and a cancelled} listener: the new subscriber is seeded with the write, is not served by that Send, survives its garbage collection and receives every follow-up write; (d) a Delete parked right after its first read (coll.delete.afterRead) while another write of the same or another id runs to completion: ALL (initial contents, prefix write, Delete options {none, allow-missing, expected value, expected check}, overtaking write) - compared: both answers and every delivery (the REMOVE must carry the item actually removed); the random K1 histories contain all four kinds of scenario too. distinct = distinct scripts"),
+		tieP:  res.Tie("pullid-scope", "K2", "ALL write histories up to the stated length over {add a, create-update a, masked update of a with write time, update of a to a message whose `a` is 0, delete a, add b} x every subscription point x a PullID(a) subscriber {plain, read mask} x resource equivalence {none, equal, sameA}: the item's seed value flagged seed and last-seed, other ids skipped, the changes of the id the equivalence does not relate forwarded as values, the stream ended by exactly the first delivered REMOVE (a REMOVE the equivalence relates to `no item` is suppressed by the inner Pull and the stream goes on); distinct = distinct scripts"),
 		mon:   res.Monitor("writer-log", "the stream each subscriber received vs the writer's own log: seed = current contents sorted by id, flagged, last flagged last, stored change time; then exactly one event per successful write (none for failed writes or a no-op delete), id/kind/old/new from what the writer's calls returned, time = write time or a clock reading within the write, suppression iff the configured equivalence relates the compared pair"),
 	}
 	r := lib.NewRand(f.Seed)
@@ -57,6 +63,8 @@ func main() {
 	lap := func(name string) { stages[name] = time.Since(t0).Seconds(); t0 = time.Now() }
 	h.smallScope(f.N(3, 4))
 	lap("small-scope")
+	h.pullIDScope(f.N(3, 4))
+	lap("pullid-scope")
 	h.raceScope(h.tieR)
 	lap("subscribe-during-write")
 	for _, s := range fixedScripts() {
@@ -75,6 +83,7 @@ func main() {
 	res.Extra["stage_seconds"] = stages
 	h.tieS.Exhaustive = true
 	h.tieR.Exhaustive = true
+	h.tieP.Exhaustive = true
 	res.Extra["ops_total"] = h.ops
 	res.Extra["scripts_skipped_after_missing_deliveries"] = h.skipped
 	pw := h.cover.report([]string{"upd", "add", "del", "vset"}, []string{"rm", "uo"})
@@ -89,6 +98,7 @@ type harness struct {
 	cover                  *pairCover
 	drv                    *lib.Driver
 	tieC, tieV, tieS, tieR *lib.Tie
+	tieP                   *lib.Tie
 	mon                    *lib.Monitor
 	ops                    int
 	skipped                int // scripts not run because the run was already failing on missing deliveries
@@ -113,7 +123,7 @@ func opLine(o Op) string {
 	if o.Op == "sub" || o.Op == "unsub" || o.Op == "subid" {
 		return o.subLine()
 	}
-	if isRace(o) {
+	if isRace(o) || o.Op == "racee" {
 		return o.Op + " id=" + o.ID + " msg=" + o.Msg + " " + strings.Join(o.Opts, " ")
 	}
 	if o.Op == "raced" {
@@ -153,6 +163,9 @@ func runCode(s Script) []obs {
 			o.ids = lastRaceIDs
 		case "raced":
 			o.ans, o.ids = r.raceD(op)
+		case "racee":
+			o.ans = r.raceE(op)
+			o.ids = lastRaceIDs
 		default:
 			a, sends := r.runWrite(op)
 			if strings.HasPrefix(a, "panic:") || strings.HasPrefix(a, "!") {
@@ -211,15 +224,15 @@ func (h *harness) runScript(s Script, tie *lib.Tie) {
 	for i, op := range s.Ops {
 		h.ops++
 		key := s.Cfg.line() + "#" + opLine(op) + "#" + subsDesc + "#" + code[i].ans
-		exh := tie == h.tieS || tie == h.tieR
+		exh := tie == h.tieS || tie == h.tieR || tie == h.tieP
 		if exh {
 			key = scriptKey(s)
 		}
 		tie.Record(key, !exh || i == len(s.Ops)-1, map[string]any{"script": prefix(s, i+1)}, model[i], code[i].ans)
 		tie.Count("op:" + op.Op)
-		if op.isWrite() || isRace(op) {
+		if op.isWrite() || isRace(op) || op.Op == "racee" {
 			wop := op
-			if isRace(op) {
+			if isRace(op) || op.Op == "racee" {
 				wop, _ = splitRace(op)
 			}
 			h.cover.call(wop.Op, wop)
@@ -236,8 +249,10 @@ func (h *harness) runScript(s Script, tie *lib.Tie) {
 		case isRace(op):
 			_, so := splitRace(op)
 			liveSubs[optOf(so, "name")] = so
+		case op.Op == "racee":
+			delete(liveSubs, optOf(op, "cname"))
 		}
-		if isRace(op) {
+		if isRace(op) || op.Op == "racee" {
 			tie.Count(op.Op + ":" + strings.SplitN(code[i].ans, " ", 2)[0])
 		}
 		if op.Op == "raced" {
@@ -261,7 +276,7 @@ func (h *harness) runScript(s Script, tie *lib.Tie) {
 		}
 		h.mon.Eval(key, true, nil)
 		w.check(h.mon, s, i, code[i])
-		if op.Op == "sub" || op.Op == "unsub" || op.Op == "subid" || isRace(op) {
+		if op.Op == "sub" || op.Op == "unsub" || op.Op == "subid" || isRace(op) || op.Op == "racee" {
 			subsDesc += opLine(op) + ";"
 		}
 	}
@@ -399,20 +414,15 @@ func (w *writerLog) check(m *lib.Monitor, s Script, i int, o obs) {
 		o.ans = strings.NewReplacer(";!timeout", "", "!timeout", "").Replace(o.ans)
 	}
 	if strings.HasPrefix(o.ans, "panic:") || strings.HasPrefix(o.ans, "!") || strings.Contains(o.ans, "!timeout") ||
-		strings.Contains(o.ans, "!closed") || strings.Contains(o.ans, "!no-equivalence-call") {
+		strings.Contains(o.ans, "!closed") || strings.Contains(o.ans, "!no-equivalence-call") ||
+		strings.Contains(o.ans, "!listener-not-stopped") {
 		m.Violate(sig+"/panic-or-stall", "a call panicked, stalled, or an expected delivery never arrived", in, "answer", o.ans)
 		return
 	}
 	switch op.Op {
 	case "unsub":
 		name, _ := op.opt("name")
-		delete(w.subs, name)
-		for k, n := range w.order {
-			if n == name {
-				w.order = append(w.order[:k], w.order[k+1:]...)
-				break
-			}
-		}
+		w.drop(name)
 	case "sub":
 		w.checkSub(m, in, sig, op, o.ans)
 	case "subid":
@@ -425,10 +435,32 @@ func (w *writerLog) check(m *lib.Monitor, s Script, i int, o obs) {
 		w.checkRaceC(m, in, sig, op, o)
 	case "raced":
 		w.checkRaceD(m, in, sig, op, o)
+	case "racee":
+		w.checkRaceE(m, in, sig, op, o)
 	default:
 		exp, evTime := w.applyWrite(m, in, op, o)
 		w.checkDeliveries(m, in, sig, exp, evTime, o.ans)
 	}
+}
+
+func (w *writerLog) drop(name string) {
+	delete(w.subs, name)
+	for k, n := range w.order {
+		if n == name {
+			w.order = append(w.order[:k], w.order[k+1:]...)
+			break
+		}
+	}
+}
+
+// checkRaceE: a subscription was cancelled while the write's Send was delivering (or, for a write that
+// announces nothing, at that moment on an idle bus). Nothing is claimed about the cancelled one; every
+// other open subscription receives the write's event exactly once, as for any write.
+func (w *writerLog) checkRaceE(m *lib.Monitor, in map[string]any, sig string, op Op, o obs) {
+	wop, _ := splitRace(op)
+	w.drop(optOf(op, "cname"))
+	exp, evTime := w.applyWrite(m, in, wop, o)
+	w.checkDeliveries(m, in, sig, exp, evTime, o.ans)
 }
 
 // checkRaceA: a subscriber opened while one write ran. The property: the write is either reflected
@@ -773,13 +805,16 @@ func (w *writerLog) checkPidDelivery(m *lib.Monitor, in map[string]any, st *subS
 	}
 	var want []string
 	if exp != nil && exp[0] == *st.pid {
-		if exp[1] == "REMOVE" {
+		// PullID forwards what its Pull delivers: a change whose (projected) old and new value the
+		// configured equivalence relates is suppressed there - also a REMOVE, if the equivalence
+		// relates the item to "no item": then the stream goes on
+		oldP, newP := proj(exp[2], st.rm), proj(exp[3], st.rm)
+		switch {
+		case w.cfg.Eqv != "" && eqvHolds(w.cfg.Eqv, oldP, newP):
+		case exp[1] == "REMOVE":
 			st.ended = true
-		} else {
-			oldP, newP := proj(exp[2], st.rm), proj(exp[3], st.rm)
-			if !(w.cfg.Eqv != "" && eqvHolds(w.cfg.Eqv, oldP, newP)) {
-				want = []string{newP}
-			}
+		default:
+			want = []string{newP}
 		}
 	}
 	switch {
@@ -899,7 +934,7 @@ func genHistory(r *rand.Rand, n int) Script {
 			name := fmt.Sprintf("k%d", nsub)
 			live = append(live, name)
 			so := pick(r, subOptPool)
-			if s.Cfg.Kind == "coll" && s.Cfg.Eqv == "" && r.Intn(100) < 25 {
+			if s.Cfg.Kind == "coll" && r.Intn(100) < 25 {
 				// PullID of an id that exists, will exist, or never does
 				id := pick(r, idPool)
 				if len(o.items) > 0 && r.Intn(3) > 0 {
@@ -923,7 +958,14 @@ func genHistory(r *rand.Rand, n int) Script {
 			continue
 		case k < 30 && len(live) > 0:
 			j := r.Intn(len(live))
-			s.Ops = append(s.Ops, Op{Op: "unsub", Opts: []string{"name=" + live[j]}})
+			if r.Intn(100) < 40 {
+				// the subscription is cancelled while a write's Send is delivering
+				w := genWrite(r, s, o)
+				o.step(w)
+				s.Ops = append(s.Ops, raceeOp(w, live[j]))
+			} else {
+				s.Ops = append(s.Ops, Op{Op: "unsub", Opts: []string{"name=" + live[j]}})
+			}
 			live = append(live[:j], live[j+1:]...)
 			continue
 		}
@@ -1015,6 +1057,40 @@ func (h *harness) raceScope(tie *lib.Tie) {
 	}
 	runC("coll", alpha, [][]string{nil, {"a~1//-"}})
 	runC("val", valpha, [][]string{nil, {"1//-"}})
+	// a subscription cancelled while a Send is delivering (racee): the snapshot holds {the cancelled one,
+	// the cancelled one and a live one before / after it, the cancelled one and an already dead one}
+	cancels := [][]Op{
+		{{Op: "sub", Opts: []string{"name=g"}}},
+		{{Op: "sub", Opts: []string{"name=h", "rm=a"}}, {Op: "sub", Opts: []string{"name=g"}}},
+		{{Op: "sub", Opts: []string{"name=g", "uo"}}, {Op: "sub", Opts: []string{"name=h"}}},
+		{{Op: "sub", Opts: []string{"name=d"}}, {Op: "unsub", Opts: []string{"name=d"}}, {Op: "sub", Opts: []string{"name=g"}}, {Op: "sub", Opts: []string{"name=h", "uo"}}}}
+	runE := func(kind string, alpha []Op, inits [][]string) {
+		prefixes := [][]Op{nil}
+		for _, a := range alpha {
+			prefixes = append(prefixes, []Op{a})
+		}
+		for _, init := range inits {
+			for ci, churn := range cancels {
+				for _, pre := range prefixes {
+					for _, w := range alpha {
+						for _, eqv := range []string{"", "equal"} {
+							if eqv != "" && ci >= 1 {
+								continue // the decisions of the equivalence are attributed to ONE live subscriber
+							}
+							var ops []Op
+							ops = append(ops, churn...)
+							ops = append(ops, pre...)
+							ops = append(ops, raceeOp(w, "g"))
+							ops = append(ops, alpha[:3]...)
+							h.runScript(Script{Cfg: Cfg{Kind: kind, Tick: 1, Eqv: eqv, Init: init}, Ops: ops}, tie)
+						}
+					}
+				}
+			}
+		}
+	}
+	runE("coll", alpha, [][]string{nil, {"a~1//-"}})
+	runE("val", valpha, [][]string{nil, {"1//-"}})
 	// a Delete overtaken, between its first read and its write lock, by another write (raced): ALL
 	// (initial contents, prefix write, Delete options, overtaking write), two subscribers watching
 	overtaking := []Op{{Op: "upd", ID: "a", Msg: "2/x/-", Opts: []string{"cia"}}, {Op: "upd", ID: "a", Msg: "3//-"},
@@ -1078,6 +1154,39 @@ func (h *harness) smallScope(maxLen int) {
 	}
 	rec(nil)
 	h.tieS.Count(fmt.Sprintf("alphabet=%d maxLen=%d", len(alpha), maxLen))
+}
+
+// pullIDScope: ALL short histories x subscription points for ONE PullID("a") subscriber, with and
+// without a resource equivalence (its decisions are attributed to the PullID's inner Pull and the
+// harness's shadow Pull, which are the only listeners).
+func (h *harness) pullIDScope(maxLen int) {
+	alpha := []Op{{Op: "add", ID: "a", Msg: "1//-"}, {Op: "upd", ID: "a", Msg: "2/x/-", Opts: []string{"cia"}},
+		{Op: "upd", ID: "a", Msg: "1/y/-", Opts: []string{"um=s", "wt=9"}}, {Op: "upd", ID: "a", Msg: "0/x/-", Opts: []string{"cia"}},
+		{Op: "del", ID: "a"}, {Op: "add", ID: "b", Msg: "1//-"}}
+	subOpts := [][]string{nil, {"rm=a"}}
+	var rec func(ops []Op)
+	rec = func(ops []Op) {
+		if len(ops) > 0 {
+			for p := 0; p <= len(ops); p++ {
+				for _, so := range subOpts {
+					for _, eqv := range []string{"", "equal", "sameA"} {
+						full := append([]Op(nil), ops[:p]...)
+						full = append(full, Op{Op: "subid", Opts: append([]string{"name=k", "id=a"}, so...)})
+						full = append(full, ops[p:]...)
+						h.runScript(Script{Cfg: Cfg{Kind: "coll", Tick: 1, Eqv: eqv}, Ops: full}, h.tieP)
+					}
+				}
+			}
+		}
+		if len(ops) == maxLen {
+			return
+		}
+		for _, a := range alpha {
+			rec(append(append([]Op(nil), ops...), a))
+		}
+	}
+	rec(nil)
+	h.tieP.Count(fmt.Sprintf("alphabet=%d maxLen=%d", len(alpha), maxLen))
 }
 
 // ---------------------------------------------------------------------------------------------
